@@ -1009,6 +1009,13 @@ Definition c_commaswizzle (e : ex) : bool :=
   match e with
   | ETup es | EBrk es => adjacent_swizzle es
   | ECall _ args => adjacent_swizzle (map snd args)      (* f(x.a,y): the same clash between call arguments *)
+  | ESet es => adjacent_swizzle es                       (* {x.a,y}: only when the source is written without the blank *)
+  | EMap ms => adjacent_swizzle (flat_map (fun m => [fst m; snd m]) ms)
+  | ERec bs => (fix go (l : list (string * option kind * ex)) : bool :=
+                  match l with
+                  | a :: ((_ :: _) as r) => ends_dot (snd a) || go r      (* {p: x.a,q: 1}: a field name follows *)
+                  | _ => false
+                  end) bs
   | _ => false
   end.
 
